@@ -31,6 +31,7 @@ type pollCtx struct {
 	budget int // -1 = never
 	closed chan struct{}
 	open   chan struct{}
+	far    bool // report a deadline far in the future (the context is still cancelled by Done(), earlier)
 }
 
 func newPollCtx() *pollCtx {
@@ -39,7 +40,12 @@ func newPollCtx() *pollCtx {
 	return c
 }
 func (c *pollCtx) reset(budget int) { c.calls = 0; c.budget = budget }
-func (c *pollCtx) Deadline() (time.Time, bool) { return time.Time{}, false }
+func (c *pollCtx) Deadline() (time.Time, bool) {
+	if c.far {
+		return time.Now().Add(24 * time.Hour), true
+	}
+	return time.Time{}, false
+}
 func (c *pollCtx) Done() <-chan struct{} {
 	n := c.calls
 	c.calls++
@@ -435,6 +441,7 @@ func RunImpl(c *Case) string {
 	var sb strings.Builder
 	sb.WriteString(c.ID)
 	ctx := newPollCtx()
+	ctx.far = has(c.Show, "fardeadline")
 	captureStart()
 	e, errText, panicked := prepareEval(c, c.Opt, ctx)
 	prepOut := captureStop()
@@ -481,6 +488,9 @@ func RunImpl(c *Case) string {
 	}
 	var lastPtr reflect.Value
 	for i, r := range c.Runs {
+		for _, f := range r.Fns { // the host (re)registers functions between runs
+			e.AddFunction(f.Name, hostFunc(f))
+		}
 		obj, objErr := buildObj(r.Obj)
 		// a host typically keeps one object and updates it in place between runs: when this run's
 		// object is a pointer to the same struct type as the previous one, reuse that pointer
@@ -614,6 +624,7 @@ func oneRun(e *evalfilter.Eval, ctx *pollCtx, r Run) (res, out, globals string) 
 // the used evaluator held before its k-th run (keys f<k>, h<k>, j<k> mirror r<k>, o<k>, g<k>).
 func implFresh(c *Case, sb *strings.Builder) {
 	ctx := newPollCtx()
+	ctx.far = has(c.Show, "fardeadline")
 	captureStart()
 	used, errText, panicked := prepareEval(c, c.Opt, ctx)
 	captureStop()
@@ -623,6 +634,7 @@ func implFresh(c *Case, sb *strings.Builder) {
 	for i, r := range c.Runs {
 		before := used.VerifEnvironment().VerifGlobals()
 		fctx := newPollCtx()
+		fctx.far = has(c.Show, "fardeadline")
 		captureStart()
 		fresh, et, pk := prepareEval(c, c.Opt, fctx)
 		captureStop()
@@ -631,6 +643,11 @@ func implFresh(c *Case, sb *strings.Builder) {
 		}
 		for k, v := range before {
 			fresh.SetVariable(k, v)
+		}
+		for _, rr := range c.Runs[:i+1] {
+			for _, f := range rr.Fns {
+				fresh.AddFunction(f.Name, hostFunc(f))
+			}
 		}
 		fr, fo, fg := oneRun(fresh, fctx, r)
 		fmt.Fprintf(sb, " f%d=%s h%d=%s j%d=%s", i, fr, i, fo, i, fg)
@@ -642,6 +659,7 @@ func implFresh(c *Case, sb *strings.Builder) {
 // implRunBool: the same history through Run (keys b<k>): 1/0 or E
 func implRunBool(c *Case, sb *strings.Builder) {
 	ctx := newPollCtx()
+	ctx.far = has(c.Show, "fardeadline")
 	captureStart()
 	e, errText, panicked := prepareEval(c, c.Opt, ctx)
 	captureStop()
@@ -649,6 +667,9 @@ func implRunBool(c *Case, sb *strings.Builder) {
 		return
 	}
 	for i, r := range c.Runs {
+		for _, f := range r.Fns {
+			e.AddFunction(f.Name, hostFunc(f))
+		}
 		obj, objErr := buildObj(r.Obj)
 		ctx.reset(r.Polls)
 		res := ""
